@@ -1,7 +1,7 @@
 /-
 Helper lemmas for C11 (Sqfs/Props/C11.lean): `strcmp` is a strict total order, sorted insertion commutes on
-different names, sorting is invariant under permutations of lists with pairwise different names, the canonical
-(sorted) enumeration of a forest is invariant under `FPerm`.
+different names, `strcmp`/`qsort` as `read_names` uses them, sorting is invariant under permutations of lists with
+pairwise different names, the enumeration served by the native iterators is invariant under `FPerm`.
 -/
 import Sqfs.Spec.FsTree
 
@@ -191,6 +191,93 @@ theorem foldr_insertBy_perm {α : Type} (key : α → Name) {l₁ l₂ : List α
   · have : key x ≠ key y := fun hk => hxy (inj_of_nodup_map hnd hx hy hk)
     exact insertBy_comm key y x (Ne.symm this) z
 
+/-! ### `strcmp` as the code calls it, and the model of `qsort` -/
+
+theorem strcmpC_neg_iff (a b : Name) : strcmpC a b < 0 ↔ nameLt a b = true := by
+  induction a generalizing b with
+  | nil => cases b <;> simp [strcmpC, nameLt]
+  | cons x xs ih =>
+    cases b with
+    | nil => simp [strcmpC, nameLt]
+    | cons y ys =>
+      simp only [strcmpC, nameLt]
+      by_cases hxy : x = y
+      · subst hxy; simp [ih]
+      · have hne : x.toNat ≠ y.toNat := fun h => hxy (UInt8.toNat_inj.mp h)
+        simp only [hxy, if_false]
+        by_cases hlt : x.toNat < y.toNat
+        · simp only [hlt, if_true, iff_true]; omega
+        · simp only [hlt, if_false, hne]
+          constructor
+          · intro h; omega
+          · intro h; cases h
+
+theorem strcmpC_eq_zero_iff (a b : Name) : strcmpC a b = 0 ↔ a = b := by
+  induction a generalizing b with
+  | nil => cases b <;> simp [strcmpC]
+  | cons x xs ih =>
+    cases b with
+    | nil => simp [strcmpC]
+    | cons y ys =>
+      simp only [strcmpC]
+      by_cases hxy : x = y
+      · subst hxy; simp [ih]
+      · have hne : x.toNat ≠ y.toNat := fun h => hxy (UInt8.toNat_inj.mp h)
+        simp only [hxy, if_false, List.cons.injEq, false_and, iff_false]
+        omega
+
+theorem strcmpC_swap (a b : Name) : 0 < strcmpC a b ↔ strcmpC b a < 0 := by
+  induction a generalizing b with
+  | nil => cases b <;> simp [strcmpC]
+  | cons x xs ih =>
+    cases b with
+    | nil => simp [strcmpC]
+    | cons y ys =>
+      simp only [strcmpC]
+      by_cases hxy : x = y
+      · subst hxy; simp [ih]
+      · have hyx : ¬ y = x := fun h => hxy h.symm
+        simp only [hxy, hyx, if_false]
+        omega
+
+/-- insertion sort by name with the loop of `insert_sorted`: the form in which the order lemmas are stated -/
+def sortByName (l : List HNode) : List HNode := l.foldr (insertBy HNode.name) []
+
+theorem insertCmp_compareNames (x : HNode) (l : List HNode) : insertCmp compareNames x l = insertBy HNode.name x l := by
+  induction l with
+  | nil => rfl
+  | cons y ys ih =>
+    simp only [insertCmp, insertBy, compareNames, ih]
+    by_cases h : nameLt y.name x.name = true
+    · have := (strcmpC_neg_iff y.name x.name).mpr h
+      simp [h, this]
+    · have h' : ¬ strcmpC y.name x.name < 0 := fun hh => h ((strcmpC_neg_iff _ _).mp hh)
+      simp [h, h']
+
+theorem qsortBy_compareNames (l : List HNode) : qsortBy compareNames l = sortByName l := by
+  induction l with
+  | nil => rfl
+  | cons x xs ih => simp only [qsortBy, sortByName, List.foldr_cons, insertCmp_compareNames] at *; rw [ih]
+
+theorem collectNames_eq (l acc : List HNode) : collectNames l acc = acc ++ l := by
+  induction l generalizing acc with
+  | nil => simp [collectNames]
+  | cons x xs ih => simp [collectNames, ih]
+
+/-- `read_names` with the `qsort` call: the `count > 1` guard only skips sorting lists that are sorted anyway -/
+theorem readNames_true (l : List HNode) : readNames true l = sortByName l := by
+  simp only [readNames, collectNames_eq, List.nil_append, Bool.true_and]
+  split
+  · exact qsortBy_compareNames l
+  · rename_i h
+    match l, h with
+    | [], _ => rfl
+    | [x], _ => rfl
+    | _ :: _ :: _, h => simp at h
+
+theorem readNames_false (l : List HNode) : readNames false l = l := by
+  simp [readNames, collectNames_eq]
+
 theorem sortByName_perm {l₁ l₂ : List HNode} (hp : l₁.Perm l₂) (hnd : (l₁.map HNode.name).Nodup) :
     sortByName l₁ = sortByName l₂ := by
   unfold sortByName
@@ -203,15 +290,53 @@ theorem sortByName_perm_self (l : List HNode) : (sortByName l).Perm l := by
     show (insertBy HNode.name x (sortByName xs)).Perm (x :: xs)
     exact (insertBy_perm _ _ _).trans (List.Perm.cons x ih)
 
-/-! ### the canonical (sorted) enumeration is invariant under `FPerm` -/
-
-theorem canonNode_name (x : HNode) : (canonNode x).name = x.name := by
-  cases x; simp [canonNode, HNode.name]
-
-theorem canonList_map_name (l : List HNode) : (canonList l).map HNode.name = l.map HNode.name := by
+theorem sortByName_sorted (l : List HNode) (hnd : (l.map HNode.name).Nodup) :
+    SortedNames ((sortByName l).map HNode.name) := by
   induction l with
-  | nil => simp [canonList]
-  | cons x xs ih => simp [canonList, canonNode_name, ih]
+  | nil => simp [sortByName, SortedNames]
+  | cons x xs ih =>
+    rw [List.map_cons, List.nodup_cons] at hnd
+    show SortedNames ((insertBy HNode.name x (sortByName xs)).map HNode.name)
+    apply insertBy_sorted HNode.name x _ (ih hnd.2)
+    intro y hy heq
+    apply hnd.1
+    rw [← heq]
+    exact List.mem_map_of_mem ((sortByName_perm_self xs).mem_iff.mp hy)
+
+/-- two strictly sorted lists with the same elements are equal -/
+theorem sorted_perm_unique {l₁ l₂ : List HNode} (hp : l₁.Perm l₂)
+    (h₁ : l₁.Pairwise (fun a b => nameLt a.name b.name = true))
+    (h₂ : l₂.Pairwise (fun a b => nameLt a.name b.name = true)) : l₁ = l₂ := by
+  induction l₁ generalizing l₂ with
+  | nil => exact (List.Perm.nil_eq hp)
+  | cons x xs ih =>
+    cases l₂ with
+    | nil => exact absurd hp.symm (by simp)
+    | cons y ys =>
+      rw [List.pairwise_cons] at h₁ h₂
+      have hx : x ∈ y :: ys := hp.mem_iff.mp List.mem_cons_self
+      have hy : y ∈ x :: xs := hp.mem_iff.mpr List.mem_cons_self
+      have hxy : x = y := by
+        rcases List.mem_cons.mp hx with h | h
+        · exact h
+        · rcases List.mem_cons.mp hy with h' | h'
+          · exact h'.symm
+          · have a := h₁.1 y h'
+            have b := h₂.1 x h
+            rw [nameLt_asymm a] at b
+            cases b
+      subst hxy
+      rw [ih (List.Perm.cons_inv hp) h₁.2 h₂.2]
+
+/-! ### the enumeration served by the native iterators is invariant under `FPerm` -/
+
+theorem nativeNode_name (b : Bool) (x : HNode) : (nativeNode b x).name = x.name := by
+  cases x; simp [nativeNode, HNode.name]
+
+theorem nativeList_map_name (b : Bool) (l : List HNode) : (nativeList b l).map HNode.name = l.map HNode.name := by
+  induction l with
+  | nil => simp [nativeList]
+  | cons x xs ih => simp [nativeList, nativeNode_name, ih]
 
 theorem fperm_names {l₁ l₂ : List HNode} (h : FPerm l₁ l₂) : (l₁.map HNode.name).Perm (l₂.map HNode.name) := by
   induction h with
@@ -263,30 +388,32 @@ theorem wfList_nodup {l : List HNode} (h : WFList l) : (l.map HNode.name).Nodup 
     rcases List.mem_map.mp hmem with ⟨y, hy, hname⟩
     exact h.1 y hy hname
 
-theorem fperm_canon {l₁ l₂ : List HNode} (h : FPerm l₁ l₂) : WFList l₁ → (canonList l₁).Perm (canonList l₂) := by
+theorem fperm_native {l₁ l₂ : List HNode} (h : FPerm l₁ l₂) :
+    WFList l₁ → (nativeList true l₁).Perm (nativeList true l₂) := by
   induction h with
   | nil => intro _; exact List.Perm.refl _
   | @cons n s t c c' l l' hc hl ihc ihl =>
     rw [wfList_cons, wfNode_mk]
     rintro ⟨_, h2, h3⟩
-    have hs : sortByName (canonList c) = sortByName (canonList c') := by
+    have hs : readNames true (nativeList true c) = readNames true (nativeList true c') := by
+      rw [readNames_true, readNames_true]
       apply sortByName_perm (ihc h2)
-      rw [canonList_map_name]
+      rw [nativeList_map_name]
       exact wfList_nodup h2
-    simp only [canonList, canonNode, hs]
+    simp only [nativeList, nativeNode, hs]
     exact List.Perm.cons _ (ihl h3)
   | swap a b l =>
     intro _
-    simp only [canonList]
+    simp only [nativeList]
     exact List.Perm.swap _ _ _
   | trans h₁ _ ih₁ ih₂ => exact fun h => (ih₁ h).trans (ih₂ (fperm_wf h₁ h))
 
-/-- the repaired native iterator hands the same enumeration to the layers above, whatever order readdir used -/
+/-- the native iterators hand the same enumeration to the layers above, whatever order readdir used -/
 theorem nativeOrder_sorted_fperm {l₁ l₂ : List HNode} (h : FPerm l₁ l₂) (hwf : WFList l₁) :
     nativeOrder true l₁ = nativeOrder true l₂ := by
-  simp only [nativeOrder, if_true]
-  apply sortByName_perm (fperm_canon h hwf)
-  rw [canonList_map_name]
+  simp only [nativeOrder, readNames_true]
+  apply sortByName_perm (fperm_native h hwf)
+  rw [nativeList_map_name]
   exact wfList_nodup hwf
 
 mutual
